@@ -60,7 +60,8 @@ def tasks(tier):
     # whole (C01 update): re-proved here
     return ['refresh', 'bin', 'walk', 'copy', 'apply', 'canary',
             'dep:C05:reorder', 'dep:C06:align', 'dep:C01:sortkeys',
-            'dep:C01:update', 'lemma']
+            'dep:C01:update', 'dep:C01:cellkey', 'dep:C01:pidspace',
+            'dep:C01:pidslices', 'lemma']
 
 
 def carr(name, length=None, elem='int'):
